@@ -15,8 +15,8 @@
 //! ```
 //!
 //! Source locations inside object / list values (they are part of the compiler's keys) are not
-//! printed.  `ordered` keeps the `BTreeMap` iteration order; `canonical` sorts the entries of every
-//! map by their own (canonical) text, bytewise, keeping duplicates.
+//! printed.  `map_text(m, false)` keeps the `BTreeMap` iteration order (what the harness answers with);
+//! `map_text(m, true)` sorts the entries of every map by their own text, bytewise, keeping duplicates.
 
 #[derive(Clone, Debug, PartialEq, Eq)]
 pub enum Sel {
@@ -155,85 +155,6 @@ pub fn map_text(m: &Map, canonical: bool) -> String {
         xs.sort();
     }
     format!("[{}]", xs.join(","))
-}
-
-/// What kind of difference makes two maps with the same canonical text iterate differently: looks
-/// at the first map (depth first) whose entry sequence differs and names the value kinds in which
-/// the first swapped pair of keys differs.
-pub fn order_difference_class(a: &Map, b: &Map) -> String {
-    fn go(a: &Map, b: &Map) -> Option<String> {
-        let ta: Vec<String> = a.iter().map(|(k, s)| entry_text(k, s, true)).collect();
-        let tb: Vec<String> = b.iter().map(|(k, s)| entry_text(k, s, true)).collect();
-        if ta != tb {
-            // first position where they differ: the two keys found there
-            for i in 0..ta.len().min(tb.len()) {
-                if ta[i] != tb[i] {
-                    return Some(key_difference(&a[i].0, &b[i].0));
-                }
-            }
-            return Some("length".to_string());
-        }
-        for ((_, sa), (_, sb)) in a.iter().zip(b.iter()) {
-            let (ma, mb) = match (sa, sb) {
-                (Sel::Linked { map: ma, .. }, Sel::Linked { map: mb, .. }) => (ma, mb),
-                (Sel::Frag { map: ma, .. }, Sel::Frag { map: mb, .. }) => (ma, mb),
-                _ => continue,
-            };
-            if let Some(c) = go(ma, mb) {
-                return Some(c);
-            }
-        }
-        None
-    }
-    go(a, b).unwrap_or_else(|| "none".to_string())
-}
-
-/// Two keys that swapped places: which value kinds distinguish them?
-fn key_difference(a: &str, b: &str) -> String {
-    // same field name, different arguments?
-    let head = |k: &str| k.split('{').next().unwrap_or("").to_string();
-    if head(a) != head(b) {
-        return "field-name".to_string();
-    }
-    let kinds = |k: &str| {
-        let mut v = vec![];
-        if k.contains("=\"") {
-            v.push("string");
-        }
-        if k.contains("=$") {
-            v.push("variable");
-        }
-        if k.contains("=o{") {
-            v.push("object");
-        }
-        if k.contains("=l[") {
-            v.push("list");
-        }
-        if k.contains("=e.") {
-            v.push("enum");
-        }
-        if k.contains("=i") || k.contains("=b") || k.contains("=n") || k.contains("=f.") {
-            v.push("literal");
-        }
-        v
-    };
-    let mut ks = kinds(a);
-    for k in kinds(b) {
-        if !ks.contains(&k) {
-            ks.push(k);
-        }
-    }
-    ks.sort();
-    let composite = ks.contains(&"object") || ks.contains(&"list");
-    if a == b {
-        // identical printed keys: they differ only in embedded source locations
-        format!("same-text:{}", ks.join("+"))
-    } else if composite {
-        // object / list literals: their embedded source locations take part in the comparison
-        format!("composite-args:{}", ks.join("+"))
-    } else {
-        format!("plain-args:{}", ks.join("+"))
-    }
 }
 
 /// FNV-1a, 64 bit: only used to compare artifact bytes across processes.
